@@ -98,9 +98,9 @@ DECLS = [('bottom:0;top:1px', 'ok'), ('', 'ok'), ('bottom:0;top:)', 'late'), ('b
 SELECTORS = [('z1, z2 > z3', 'ok'), ('n1|z', 'ok'), ('zz|z', 'early'), ('z1, zz|z', 'late'), ('z1,', 'late'), ('z1, ,z2', 'late'), ('', 'early'), ('z1{', 'late'), ('z1 > ', 'late'),
              ('z1[a=]', 'late'), ('z1:not(', 'late'), ('z1, z2[zz|a]', 'late'), ('z1 z2:not(zz|a)', 'late'), ('1z', 'early'), ('z1, z2)', 'late')]  # fmt: skip
 SELECTOR1 = [('z1 > z3', 'ok'), ('zz|z', 'early'), ('z1, z2', 'late'), ('z1 >', 'late'), ('', 'early'), ('z1[a', 'late'), ('z1 zz|z', 'late'), ('z1:not(zz|a)', 'late'), ('*|*|*', 'late')]
-MEDIAS = [('tty', 'ok'), ('tv, print', 'ok'), ('all and (min-width:1px)', 'ok'), ('3d', 'early'), ('tv, 3d', 'late'), ('tv,', 'late'), ('tv and', 'late'), ('tv and (', 'late'), ('tv, print and (color', 'late'),
+MEDIAS = [('/*x*/', 'early'), ('/*x*/ tv', 'ok'), ('tv /*y*/, /*z*/', 'late'), (' ', 'ok'), ('tty', 'ok'), ('tv, print', 'ok'), ('all and (min-width:1px)', 'ok'), ('3d', 'early'), ('tv, 3d', 'late'), ('tv,', 'late'), ('tv and', 'late'), ('tv and (', 'late'), ('tv, print and (color', 'late'),
           ('', 'ok'), ('tv print', 'late'), ('tv, , print', 'late'), ('tv; print', 'late'), ('tv, print and color', 'late'), ('not', 'early'), ('(min-width:)', 'early')]  # fmt: skip
-MEDIUM1 = [('tv', 'ok'), ('SCREEN', 'ok'), ('all', 'ok'), ('ALL', 'ok'), ('print', 'ok'), ('handheld', 'ok'), ('tty', 'ok'), ('print and (color)', 'ok'), ('3d', 'early'), ('tv, print', 'late'), ('tv and', 'late'), ('', 'early'), ('tv and (', 'late'), ('tv x', 'late')]
+MEDIUM1 = [('/*x*/', 'early'), ('/*x*/ tv', 'ok'), ('tv', 'ok'), ('SCREEN', 'ok'), ('all', 'ok'), ('ALL', 'ok'), ('print', 'ok'), ('handheld', 'ok'), ('tty', 'ok'), ('print and (color)', 'ok'), ('3d', 'early'), ('tv, print', 'late'), ('tv and', 'late'), ('', 'early'), ('tv and (', 'late'), ('tv x', 'late')]
 MEDIATYPES = [('tv', 'ok'), ('nosuch', 'early'), ('3d', 'early'), ('', 'early'), ('tv print', 'late')]
 VALUES = [('2px', 'ok'), ('red', 'ok'), ('1px 2px', 'ok'), (')', 'early'), ('1px )', 'late'), ('1px;2px', 'late'), ('', 'early'), ('1px !important', 'late'), ('calc(1px +', 'late'), ('1px,', 'late'),
           ('url(', 'early'), ('rgb(1,2', 'late'), ('1px {', 'late'), ('"x', 'early'), ('1px /', 'late'), ('f(1 g(2 h(', 'nested')]  # fmt: skip
@@ -186,6 +186,10 @@ def mutators(c):
         add('CSSStyleSheet.insertRule@%d' % idx, sheet_t, (lambda t, a, idx=idx: t.insertRule(a, idx)), [(t, 'mixed') for t in ALL_RULE_TEXTS])
     add('CSSStyleSheet.add', sheet_t, lambda t, a: t.add(a), [(t, 'mixed') for t in ALL_RULE_TEXTS])
     add('CSSStyleSheet.deleteRule', sheet_t, lambda t, a: t.deleteRule(a), INDEXES + [(2, 'ok'), (3, 'ok')])
+    ns_pairs = [((p, u), 'mixed') for p in ('n1', '', 'n5', 'a') for u in ('urn:n1', 'urn:d', 'urn:new')]
+    add('CSSStyleSheet.add(CSSNamespaceRule)', sheet_t, lambda t, a: t.add(css.CSSNamespaceRule(prefix=a[0], namespaceURI=a[1])), ns_pairs)
+    for idx in (2, 3, 4):
+        add('CSSStyleSheet.insertRule(CSSNamespaceRule)@%d' % idx, sheet_t, (lambda t, a, idx=idx: t.insertRule(css.CSSNamespaceRule(prefix=a[0], namespaceURI=a[1]), idx)), ns_pairs)
     add('CSSStyleSheet.namespaces[]=', sheet_t, lambda t, a: t.namespaces.__setitem__(a[0], a[1]),
         [((p, u), 'mixed') for p in ('n1', '', 'n5', '1x') for u in ('urn:n1', 'urn:d', 'urn:new')])
     add('del CSSStyleSheet.namespaces[]', sheet_t, lambda t, a: t.namespaces.__delitem__(a), [('n1', 'early'), ('', 'early'), ('n5', 'early')])
@@ -313,6 +317,10 @@ def observe(c, sheet, owner, target):
                             row.append('EXC ' + type(e).__name__)
                     vals.append(row)
     obs['values'] = vals
+    try:
+        obs['sheet.variables'] = sorted((k, sheet.variables.getVariableValue(k)) for k in sheet.variables.keys())
+    except Exception as e:
+        obs['sheet.variables'] = 'EXC ' + type(e).__name__
     for r in sheet.cssRules:
         cls = type(r).__name__
         if cls == 'CSSPageRule':
@@ -322,7 +330,7 @@ def observe(c, sheet, owner, target):
         elif cls == 'CSSFontFaceRule':
             obs['fontface'] = [(p.name, p.value) for p in r.style.getProperties(all=True)]
         elif cls == 'CSSMediaRule':
-            obs['media'] = [r.media.mediaText, [r.media[i].mediaText for i in range(r.media.length)], r.name, len(r.cssRules)]
+            obs['media'] = [r.media.mediaText, [r.media.item(i) for i in range(r.media.length)], r.name, len(r.cssRules)]
         elif cls == 'CSSCharsetRule':
             obs['charset'] = r.encoding
     return obs
@@ -346,7 +354,12 @@ def battery_case(ctx, c, muts, mi, ii, prior_seed, readonly=False, variant=0):
     allin = inputs + extra
     arg, stage = allin[ii % len(allin)]
     core.canonical_state(c)
-    sheet = c.parseString(BASE_ALL if variant == 1 else BASE)
+    if variant == 3:
+        # variables supplied only by an imported sheet, used through var(); an extra declaration of a namespace that is in use
+        text = BASE.replace('@variables{v1:red;v2:1px}\n', '').replace('@namespace "urn:d";', '@namespace "urn:d";@namespace n7 "urn:n7";').replace('vv{', 'n7|w{top:0}vv{')
+        sheet = c.CSSParser(fetcher=lambda url: (None, '@variables{v1:green;v2:2px}iv{top:0}')).parseString(text, href='http://h/base.css')
+    else:
+        sheet = c.parseString(BASE_ALL if variant == 1 else BASE)
     if variant == 2:
         # a list that came to hold 'all' beside other media through item-level edits
         try:
@@ -433,6 +446,8 @@ def run_worker(ctx):
                 if 'edia' in label and prior is None:
                     for variant in (1, 2):
                         battery_case(ctx, cssutils, muts, mi, ii, None, variant=variant)
+                if prior is None and (label.startswith('CSSStyleSheet.') or 'Namespace' in label or 'Import' in label or 'Variables' in label):
+                    battery_case(ctx, cssutils, muts, mi, ii, None, variant=3)
             idx += 1
             if ctx.mine(idx) and not label.startswith('Property.') and not is_extra:  # Property has no read-only form
                 ctx.count('evaluations')
